@@ -618,7 +618,10 @@ def s_odb_leftover(A):
                             still = f.read() == b"BADD"
                     except OSError:
                         still = False
-                    if vname == "plain" and still:
+                    # verify is NOT effective on a LocalHashFileDB for a leftover that is write-protected: its check
+                    # trusts mode 0o444 without reading (C07's trust-by-mode), so add() skips and records as in "plain"
+                    ineffective = vname.startswith("verify") and cls == "local" and mode == 0o444
+                    if still and (vname == "plain" or ineffective):
                         for k in range(n, len(A.problems)):
                             if os.path.basename(cpath) in A.problems[k][1]:
                                 A.problems[k] = (SIG_LEFTOVER, A.problems[k][1], case)
